@@ -19,7 +19,7 @@
 From Coq.Strings Require Import Byte String.
 From Coq Require Import List Arith NArith Bool.
 Import ListNotations.
-From V Require Import lib.Bytes model.Ast model.IrFrag proofs.IrFragProof.
+From V Require Import lib.Bytes lib.Sexp model.Ast model.Gen spec.Denote model.IrFragPrint model.IrFragEnv proofs.IrFragDenoteProof model.IrFrag proofs.IrFragProof.
 Local Open Scope nat_scope.
 
 (* the generated, literal-merged code of a file writes exactly what its templates denote: output bytes, error position (nothing runs after an error), and the evaluation trace of every expression other than the hoisted evaluations; any call depth, any children *)
@@ -242,6 +242,46 @@ Theorem C02_call_with_block_opaque :
     exec_f orc false (compile orc tbl) (S fuel) env (option_map (compile_blk orc) kids) (coalesce (gens orc [CallB e ch] next)) = andthen (evt KCall e) (lit s).
 Proof. intros. apply call_with_block_opaque; try exact (or_introl eq_refl); assumption. Qed.
 Print Assumptions C02_call_with_block_opaque.
+
+(* the fragment denotation and spec/Denote.v are the same function on fragment files: rendering a template with Denote.v's
+   renderer (shared children slot threaded through a state, fuel at every node) from a live state with an empty slot appends
+   exactly the output of the fragment denotation (lexical child blocks, oracles read from the same environment:
+   model/IrFragEnv.v), fails at the same position and leaves the slot empty - at every fuel of either - unless one of the two
+   reports its own internal error, position (0,0): fuel exhausted, or an expression / callee the environment does not know
+   (a templ.Error never has line 0).  Scope (tbl_scope): no on* attributes (outside spec/Denote.v) and no URL / class-list
+   sinks (for which spec/Denote.v has an error case the generated code has not). *)
+Theorem C02_denote_agrees :
+  forall (tc : bool) (fl : file) (l : list ffnode) (name : bytes) (bodyA : list node) (F cf : nat) (ev : Denote.env) (x : st),
+    to_frag_file fr_known fl = Some l -> tbl_scope (frag_table l) = true ->
+    find_templ (templ_table fl) name = Some bodyA ->
+    failed x = None -> slot x = None ->
+    exists body', IrFrag.find (frag_table l) name = Some body' /\
+      let x' := nodes_with (render_node (templ_table fl) F) ev None (Denote.strip_ws bodyA) None x in
+      let r := denote_f fr_orc tc (frag_table l) cf ev None body' None in
+      failed x' = Some (0%N, 0%N) \/ err_of r = Some (0%N, 0%N) \/
+      (flat x' = flat x ++ out_of r /\ failed x' = err_of r /\ (failed x' = None -> slot x' = None)).
+Proof. exact file_agrees. Qed.
+Print Assumptions C02_denote_agrees.
+(* non-vacuity: a file inside the scope, on which neither model reports (0,0) and both render the same bytes *)
+Definition y_e (s : string) : expr := {| e_val := bs s; e_fi := 1%N; e_fl := 1%N; e_fc := 1%N; e_ti := 2%N; e_tl := 1%N; e_tc := 2%N |}.
+Definition y_file : file :=
+  {| f_header := []; f_pkg := y_e "package main";
+     f_nodes := [FTempl (y_e "T(s0 string)")
+                   [NWs (bs " "); NText (bs "hi") SpHoriz;
+                    NElem (bs "b") [AConst (bs "id") (bs "x<"); AExpr (bs "title") (y_e "s0")] [NStr (y_e "s0") SpNone] SpNone;
+                    NCall (y_e "wrap()") [NWs (bs " "); NStr (y_e "s0") SpNone; NCall (y_e "Card()") [NText (bs "in") SpNone]; NWs (bs " ")];
+                    NIf (y_e "b0") [NText (bs "yes") SpNone] [] [NCallT (y_e "Card()")]];
+                 FTempl (y_e "Card()") [NElem (bs "u") [] [NChildren] SpNone]] |}.
+Definition y_env : Denote.env := [(bs "s0", VStr (bs "a<b")); (bs "b0", VBool false)].
+Example C02_ex_denote_agree :
+  exists l, to_frag_file fr_known y_file = Some l /\ tbl_scope (frag_table l) = true /\
+    denote_case y_file (bs "T") y_env = bs "OK:hi <b id=""x&lt;"" title=""a&lt;b"">a&lt;b</b>[a&lt;b<u>in</u>]<u></u>" /\
+    match IrFrag.find (frag_table l) (bs "T") with
+    | Some body => denote_f fr_orc false (frag_table l) 10 y_env None body None
+    | None => fail0 end
+    = (bs "hi <b id=""x&lt;"" title=""a&lt;b"">a&lt;b</b>[a&lt;b<u>in</u>]<u></u>",
+       [(KStr, y_e "s0"); (KStr, y_e "s0"); (KCall, y_e "wrap()"); (KStr, y_e "s0"); (KCall, y_e "Card()"); (KBool, y_e "b0"); (KCall, y_e "Card()")], None).
+Proof. eexists. split; [vm_compute; reflexivity|]. split; [vm_compute; reflexivity|]. split; vm_compute; reflexivity. Qed.
 
 (* ---------- the two evaluation findings (DESIGN 5 C02 "Current tree", 6 row 13) at the model level ---------- *)
 Definition x_e (s : string) : expr := {| e_val := bs s; e_fi := 0%N; e_fl := 0%N; e_fc := 0%N; e_ti := 0%N; e_tl := 2%N; e_tc := 7%N |}.
